@@ -36,6 +36,11 @@ theorem lexS_norm_bs (long : Bool) (q : Char) (hq : q ≠ cBS) (rest : List Char
   have : ¬ (cBS = q) := fun h => hq h.symm
   cases rest <;> simp [lexS, normCase, isClose, this]
 
+/-- `\x00` denotes NUL -/
+theorem lexS_esc_x00 (long : Bool) (q : Char) (rest : List Char) :
+    lexS long q .esc ('x' :: '0' :: '0' :: rest) = emit cNUL (lexS long q .norm rest) := by
+  simp [lexS, escCase, escKind, cLF, cBS, cSQ, cDQ, hexCase, hexVal, ofCode, cNUL]
+
 /-- first character of the escaped text followed by `t` -/
 theorem docEsc_head (r t : List Char) (ht : ∀ c r', t = c :: r' → c ≠ cDQ) (y : Char)
     (ys : List Char) (h : docEsc 0 r ++ t = y :: ys) (hy : y = cDQ) :
@@ -66,8 +71,12 @@ theorem docEsc_head (r t : List Char) (ht : ∀ c r', t = c :: r' → c ≠ cDQ)
         · subst hxc
           simp only [docEsc, hx, hxb, if_false, if_true, List.cons_append] at h
           exact hbs (List.cons.inj h).1
-        · simp only [docEsc, hx, hxb, hxc, if_false, List.cons_append] at h
-          exact hx (List.cons.inj h).1
+        · by_cases hxn : x = cNUL
+          · subst hxn
+            simp only [docEsc, hx, hxb, hxc, if_false, if_true, List.cons_append] at h
+            exact hbs (List.cons.inj h).1
+          · simp only [docEsc, hx, hxb, hxc, hxn, if_false, List.cons_append] at h
+            exact hx (List.cons.inj h).1
 
 /-- the escaped text followed by `t` begins with two raw quotes only if the description begins
     with two quotes -/
@@ -125,104 +134,90 @@ theorem lexS_docEsc (t v : List Char) (ht : ∀ c r, t = c :: r → c ≠ cDQ)
         · subst hr
           simp only [docEsc, hc, hb, if_false, if_true, List.cons_append]
           rw [lexS_norm_bs _ _ hqb, lexS_esc_char _ _ _ _ _ eR, ih, emit_some]
-        · simp only [docEsc, hc, hb, hr, if_false, List.cons_append]
-          rw [lexS_norm_raw _ _ _ _ (hclose _) hb (by simp), ih, emit_some]
+        · by_cases hn : c = cNUL
+          · subst hn
+            simp only [docEsc, hc, hb, hr, if_false, if_true, List.cons_append]
+            rw [lexS_norm_bs _ _ hqb, lexS_esc_x00, ih, emit_some]
+          · simp only [docEsc, hc, hb, hr, hn, if_false, List.cons_append]
+            rw [lexS_norm_raw _ _ _ _ (hclose _) hb (by simp), ih, emit_some]
 
-theorem docEsc_mem (d : List Char) : ∀ (k : Nat) (x : Char), x ∈ docEsc k d →
-    x = cBS ∨ x = cDQ ∨ x = 'r' ∨ (x ∈ d ∧ x ≠ cCR) := by
-  induction d with
-  | nil => intro k x hx; simp [docEsc] at hx
-  | cons c r ih =>
-    intro k x hx
-    have lift : (x = cBS ∨ x = cDQ ∨ x = 'r' ∨ (x ∈ r ∧ x ≠ cCR)) →
-        x = cBS ∨ x = cDQ ∨ x = 'r' ∨ (x ∈ c :: r ∧ x ≠ cCR) := by
-      rintro (h | h | h | ⟨h1, h2⟩)
-      · exact Or.inl h
-      · exact Or.inr (Or.inl h)
-      · exact Or.inr (Or.inr (Or.inl h))
-      · exact Or.inr (Or.inr (Or.inr ⟨by simp [h1], h2⟩))
-    unfold docEsc at hx
-    split at hx
-    · split at hx
-      · simp only [List.mem_cons] at hx
-        rcases hx with h | h | h
-        · exact Or.inl h
-        · exact Or.inr (Or.inl h)
-        · exact lift (ih _ x h)
-      · split at hx
-        · simp only [List.mem_cons] at hx
-          rcases hx with h | h | h
-          · exact Or.inl h
-          · exact Or.inr (Or.inl h)
-          · exact lift (ih _ x h)
-        · simp only [List.mem_cons] at hx
-          rcases hx with h | h
-          · exact Or.inr (Or.inl h)
-          · exact lift (ih _ x h)
-    · split at hx
-      · simp only [List.mem_cons] at hx
-        rcases hx with h | h | h
-        · exact Or.inl h
-        · exact Or.inl h
-        · exact lift (ih _ x h)
-      · split at hx
-        · simp only [List.mem_cons] at hx
-          rcases hx with h | h | h
-          · exact Or.inl h
-          · exact Or.inr (Or.inr (Or.inl h))
-          · exact lift (ih _ x h)
-        · rename_i hcr
-          simp only [List.mem_cons] at hx
-          rcases hx with h | h
-          · subst h
-            exact Or.inr (Or.inr (Or.inr ⟨by simp, hcr⟩))
-          · exact lift (ih _ x h)
+/-- the escaped text contains no carriage return and no NUL -/
+theorem docEsc_clean : ∀ (d : List Char) (k : Nat) (x : Char), x ∈ docEsc k d → x ≠ cCR ∧ x ≠ cNUL
+  | [], k, x, hx => by simp [docEsc] at hx
+  | c :: r, k, x, hx => by
+    have ih := docEsc_clean r
+    have lit : ∀ y : Char, (y = cBS ∨ y = cDQ ∨ y = 'r' ∨ y = 'x' ∨ y = '0') → y ≠ cCR ∧ y ≠ cNUL := by
+      rintro y (rfl | rfl | rfl | rfl | rfl) <;> decide
+    by_cases hc : c = cDQ
+    · subst hc
+      by_cases hk : 0 < k
+      · simp only [docEsc, if_true, hk, List.mem_cons] at hx
+        rcases hx with rfl | rfl | h
+        · exact lit _ (Or.inl rfl)
+        · exact lit _ (Or.inr (Or.inl rfl))
+        · exact ih _ x h
+      · cases h3 : (r.take 2 == [cDQ, cDQ]) with
+        | true =>
+          simp only [docEsc, if_true, hk, if_false, h3, List.mem_cons] at hx
+          rcases hx with rfl | rfl | h
+          · exact lit _ (Or.inl rfl)
+          · exact lit _ (Or.inr (Or.inl rfl))
+          · exact ih _ x h
+        | false =>
+          simp only [docEsc, if_true, hk, if_false, h3, Bool.false_eq_true, List.mem_cons] at hx
+          rcases hx with rfl | h
+          · exact lit _ (Or.inr (Or.inl rfl))
+          · exact ih _ x h
+    · by_cases hb : c = cBS
+      · subst hb
+        simp only [docEsc, hc, if_false, if_true, List.mem_cons] at hx
+        rcases hx with rfl | rfl | h
+        · exact lit _ (Or.inl rfl)
+        · exact lit _ (Or.inl rfl)
+        · exact ih _ x h
+      · by_cases hr : c = cCR
+        · subst hr
+          simp only [docEsc, hc, hb, if_false, if_true, List.mem_cons] at hx
+          rcases hx with rfl | rfl | h
+          · exact lit _ (Or.inl rfl)
+          · exact lit _ (Or.inr (Or.inr (Or.inl rfl)))
+          · exact ih _ x h
+        · by_cases hn : c = cNUL
+          · subst hn
+            simp only [docEsc, hc, hb, hr, if_false, if_true, List.mem_cons] at hx
+            rcases hx with rfl | rfl | rfl | rfl | h
+            · exact lit _ (Or.inl rfl)
+            · exact lit _ (Or.inr (Or.inr (Or.inr (Or.inl rfl))))
+            · exact lit _ (Or.inr (Or.inr (Or.inr (Or.inr rfl))))
+            · exact lit _ (Or.inr (Or.inr (Or.inr (Or.inr rfl))))
+            · exact ih _ x h
+          · simp only [docEsc, hc, hb, hr, hn, if_false, List.mem_cons] at hx
+            rcases hx with rfl | h
+            · exact ⟨hr, hn⟩
+            · exact ih _ x h
 
-/-- the docstring literal denotes the intended `__doc__` for EVERY description without NUL -/
-theorem lexSrc_docWrapL (d : List Char) (hnul : cNUL ∉ d) :
+/-- the docstring literal denotes the intended `__doc__` for EVERY description (since the repair of
+    `unescaped:description-nul`: NUL is written `\x00`) -/
+theorem lexSrc_docWrapL (d : List Char) :
     lexSrc (docWrapL d) = some (docValueL d) := by
-  have hA : ∀ c ∈ [cDQ, cDQ, cDQ, cLF] ++ indent4, c = cDQ ∨ c = cLF ∨ c = ' ' := by decide
-  have hB : ∀ c ∈ [cLF] ++ indent4 ++ [cDQ, cDQ, cDQ], c = cDQ ∨ c = cLF ∨ c = ' ' := by decide
+  have hA : ∀ c ∈ [cDQ, cDQ, cDQ, cLF] ++ indent4, c ≠ cCR ∧ c ≠ cNUL := by decide
+  have hB : ∀ c ∈ [cLF] ++ indent4 ++ [cDQ, cDQ, cDQ], c ≠ cCR ∧ c ≠ cNUL := by decide
   have hshape : docWrapL d = ([cDQ, cDQ, cDQ, cLF] ++ indent4)
       ++ (docEsc 0 d ++ ([cLF] ++ indent4 ++ [cDQ, cDQ, cDQ])) := by
     simp [docWrapL, List.append_assoc]
-  have hmem : ∀ c ∈ docWrapL d, c = cDQ ∨ c = cLF ∨ c = ' ' ∨ c = cBS ∨ c = 'r' ∨ (c ∈ d ∧ c ≠ cCR) := by
+  have hmem : ∀ c ∈ docWrapL d, c ≠ cCR ∧ c ≠ cNUL := by
     intro c hc
     rw [hshape] at hc
-    have lift3 : (c = cDQ ∨ c = cLF ∨ c = ' ') →
-        c = cDQ ∨ c = cLF ∨ c = ' ' ∨ c = cBS ∨ c = 'r' ∨ (c ∈ d ∧ c ≠ cCR) := by
-      rintro (h | h | h)
-      · exact Or.inl h
-      · exact Or.inr (Or.inl h)
-      · exact Or.inr (Or.inr (Or.inl h))
     rcases List.mem_append.1 hc with h | h
-    · exact lift3 (hA c h)
+    · exact hA c h
     · rcases List.mem_append.1 h with h | h
-      · rcases docEsc_mem d 0 c h with h | h | h | h
-        · exact Or.inr (Or.inr (Or.inr (Or.inl h)))
-        · exact Or.inl h
-        · exact Or.inr (Or.inr (Or.inr (Or.inr (Or.inl h))))
-        · exact Or.inr (Or.inr (Or.inr (Or.inr (Or.inr h))))
-      · exact lift3 (hB c h)
-  have hCR : ∀ c ∈ docWrapL d, c ≠ cCR := by
-    intro c hc
-    rcases hmem c hc with rfl | rfl | rfl | rfl | rfl | h
-    · decide
-    · decide
-    · decide
-    · decide
-    · decide
-    · exact h.2
+      · exact docEsc_clean d 0 c h
+      · exact hB c h
+  have hCR : ∀ c ∈ docWrapL d, c ≠ cCR := fun c hc => (hmem c hc).1
   have hNUL : (docWrapL d).contains cNUL = false := by
     apply Bool.eq_false_iff.2
     intro hcon
-    rcases hmem cNUL (List.contains_iff_mem.1 hcon) with h | h | h | h | h | h
-    · exact absurd h (by decide)
-    · exact absurd h (by decide)
-    · exact absurd h (by decide)
-    · exact absurd h (by decide)
-    · exact absurd h (by decide)
-    · exact hnul h.1
+    exact (hmem cNUL (List.contains_iff_mem.1 hcon)).2 rfl
   have h2 := lexS_docEsc ([cLF] ++ indent4 ++ [cDQ, cDQ, cDQ]) ([cLF] ++ indent4)
     (by intro c r h; simp at h; rw [← h.1]; decide) docTail_lex d 0
   have hbody : lexS true cDQ .norm ([cLF] ++ indent4 ++ (docEsc 0 d ++ ([cLF] ++ indent4 ++ [cDQ, cDQ, cDQ])))
